@@ -135,6 +135,19 @@ CLAIMED["C12"] = {
                           "numerics as uninterpreted functions",
 }
 
+CLAIMED["C16"] = {
+    "text": "bounded symbolic checking of the real framers on an instance without a socket: Beast (type 2/3 frames, "
+            "interleaved type 1/4), its rssi twin, AVR raw and Skysense streams whose payload bytes are free 8-bit solver "
+            "variables (0x1A exactly at an enumerated escape set, doubled on the wire), delivered in every single cut "
+            "(quick) / every double cut and 1-byte pieces (thorough): after every read the cumulative output is a prefix "
+            "of the frame list made of completely received frames, and at the end it is exactly the frame list; "
+            "NetSource.handle_messages forwards every long DF17/18 and DF20/21 message once and in order. Bounds: <= 3 "
+            "frames, <= 2 escaped bytes, <= 2 cuts (plus 1-byte pieces).",
+    "design_ref": "DESIGN.md section 5 C16", "note": NOTE,
+    "technique": T_SYMX + "; byte values symbolic, cut positions / escape positions / frame shapes enumerated; decisions "
+                          "implied by the work item's assumptions cached across runs",
+}
+
 NOT_APPLICABLE = {
     "C20": "transcendental float numerics (numpy **, exp, sqrt, arccos on doubles): no SMT theory reaches the stated "
            "quantities; z3 nlsat answers unknown on the tas<->cas inverse identity; see DESIGN.md section 5 C20",
